@@ -44,6 +44,7 @@ type echoCfg struct {
 	writeCutAt        int64  // driver-side write cut at this stream offset on the data connection (-1 = none)
 	cutErrOnly        bool
 	stallAt           int64         // driver-side writes block from this stream offset on until the write deadline (0 = none)
+	stallMore         []int64       // further stall points on the same connection, each lasting one write deadline
 	stallAtBoundary   bool          // ... and the stall begins between two Write calls (on a frame boundary of a coalesced batch)
 	hugeAnswers       bool          // a few answers have a body of 1..4 MiB plus a bit, with other answers right behind them
 	writeTimeout      time.Duration // ClusterConfig.WriteTimeout (0 = gocql's default)
@@ -439,6 +440,7 @@ func runEcho(c *runner.Ctx, ec *echoCfg) *echoResult {
 				if ec.stallAt > 0 {
 					f.StallWritesAt = ec.stallAt
 					f.StallAtBoundary = ec.stallAtBoundary
+					f.StallMore = append([]int64{}, ec.stallMore...)
 				}
 			}
 			return f
